@@ -46,6 +46,10 @@ def cases(tier, seed):
         specs = specs[::2]
     for i in range(0, len(specs), 16):
         out.append({'k': 'graphs', 'specs': specs[i:i + 16]})
+    # values whose children are easily lost: an exception that carries attributes, a dictionary with a key whose hash has changed since
+    for sv in SPECIAL:
+        for site in ('local', 'nested'):
+            out.append({'k': 'special', 'value': sv, 'site': site})
     # application classes that are merely named like the types the collector treats specially
     for nm in NAMED:
         for site in ('local', 'nested'):
@@ -58,6 +62,63 @@ def cases(tier, seed):
 
 NAMED = ['str', 'int', 'float', 'bool', 'type', 'module', 'unicode', 'long', 'NoneType', 'traceback', 'list_iterator', 'listiterator',
          'list_reverseiterator', 'list', 'tuple', 'set', 'frozenset', 'dict', 'Exception', 'function', 'generator', 'Order']
+
+
+class ApiError(Exception):
+    def __init__(self, message, status, body):
+        super().__init__(message)
+        self.status = status
+        self.body = body
+
+
+class MovingKey:
+    def __init__(self):
+        self.n = 1
+
+    def __hash__(self):
+        return self.n
+
+    def __eq__(self, other):
+        return self is other
+
+    def __str__(self):
+        return 'moving-key'
+
+
+def _moved():
+    k = MovingKey()
+    d = {k: 'index', 'plain': 2}
+    k.n = 2
+    return d
+
+
+SPECIAL = {'exception_with_attributes': lambda: ApiError('request failed', 503, {'retry': True}),
+           'exception_plain': lambda: ValueError('bad', 7),
+           'dict_key_hash_moved': _moved}
+
+
+def special_case(ctx, desc):
+    v = SPECIAL[desc['value']]()
+    loc = {'o': v, 'z': 1} if desc['site'] == 'local' else {'box': [v], 'z': 1}
+    agent, run, info = snapref.take(loc, [{}])
+    ctx.case()
+    if run.escaped or len(agent.snapshots) != 1:
+        ctx.violation('C02/special/no-snapshot', f'{desc["value"]}: snapshots={len(agent.snapshots)}', desc)
+        return
+    snap = agent.snapshots[0]
+    top = {x.name: x.vid for x in snap.frames[0].variables}
+    problems = []
+    for n, val in loc.items():
+        if n not in top:
+            problems.append(('missing', n))
+            continue
+        compare_var(snap, top[n], struct(val, 3, frozenset()), n, problems)
+    ctx.nt(('special', desc['value'], desc['site']))
+    ctx.outcome(('special', desc['value'], len(snap.var_lookup)))
+    if problems:
+        p = problems[0]
+        ctx.violation(f'C02/special/{desc["value"]}/variable-{p[0]}', f'{desc["value"]} ({desc["site"]}): {p[1]}: recorded '
+                      f'{p[2] if len(p) > 2 else None!r}, real {p[3] if len(p) > 3 else None!r}', desc)
 
 
 def named_case(ctx, desc):
@@ -263,6 +324,8 @@ def run_case(ctx, desc):
         one_graph(ctx, desc)
     elif desc['k'] == 'named':
         named_case(ctx, desc)
+    elif desc['k'] == 'special':
+        special_case(ctx, desc)
     else:
         conc(ctx, desc)
 
